@@ -908,3 +908,58 @@ def add_twin_paths(rng, g, ntwins=None):
             prev = tgt
         added += 1
     return added
+
+
+def structured_operator_tensor(rng, d, Dl, Dr, cplx=True):
+    """
+    MPO tensor (d, d, Dl, Dr) whose bond blocks W[:, :, a, b] are STRUCTURED local operators, as in hand-written automaton-form Hamiltonians: identically
+    zero blocks, the identity and multiples of it, c*I + g*X with X purely off-diagonal (constant diagonal AND off-diagonal entries), diagonal operators,
+    projectors |+><+|, rank-one and nilpotent (shift) operators, Hermitian and dense random blocks. No quantum numbers (all labels zero).
+    """
+    c = lambda *s: rng.normal(size=s) + (1j * rng.normal(size=s) if cplx else 0)
+    W = np.zeros((d, d, Dl, Dr), dtype=complex if cplx else float)
+    ident = np.identity(d)
+    for a in range(Dl):
+        for b in range(Dr):
+            k = str(rng.choice(['zero', 'zero', 'zero', 'identity', 'scaled-identity', 'identity+offdiag', 'identity+offdiag', 'diagonal', 'const-diag+dense', 'projector',
+                                'rank-one', 'shift', 'hermitian', 'dense']))
+            if k == 'zero':
+                continue
+            if k == 'identity':
+                B = ident
+            elif k == 'scaled-identity':
+                B = complex(c()) * ident if cplx else float(c()) * ident
+            elif k == 'identity+offdiag':
+                X = c(d, d)
+                X = X - np.diag(np.diag(X))
+                B = float(rng.choice([1.0, 0.7, -2.0])) * ident + float(rng.choice([0.8, 1.0, -0.5])) * X
+            elif k == 'diagonal':
+                B = np.diag(c(d))
+            elif k == 'const-diag+dense':
+                B = c(d, d)
+                B = B - np.diag(np.diag(B)) + float(rng.normal()) * ident
+            elif k == 'projector':
+                v = np.ones(d) / np.sqrt(d)
+                B = np.outer(v, v)
+            elif k == 'rank-one':
+                B = np.outer(c(d), c(d).conj())
+            elif k == 'shift':
+                B = np.diag(np.ones(d - 1), 1) if d > 1 else np.zeros((1, 1))
+            elif k == 'hermitian':
+                B = c(d, d)
+                B = B + B.conj().T
+            else:
+                B = c(d, d)
+            W[:, :, a, b] = B
+    if not W.any():
+        W[:, :, 0, 0] = ident
+    return W
+
+
+def structured_block_mpo(rng, d, L, Dmax=3, cplx=True):
+    """MPO without quantum numbers assembled from structured_operator_tensor (dummy boundary bonds of dimension 1)."""
+    from .env import ptn
+    D = [1] + [int(rng.integers(1, Dmax + 1)) for _ in range(L - 1)] + [1]
+    op = ptn.MPO(np.zeros(d, dtype=int), [np.zeros(Di, dtype=int) for Di in D], fill='postpone')
+    op.A = [structured_operator_tensor(rng, d, D[i], D[i + 1], cplx) for i in range(L)]
+    return op
